@@ -360,10 +360,6 @@ End Words.
 (* ------------------------------------------------------------------ *)
 (** * The model performs the reference editor's steps *)
 
-(** The editor state as the terminal holds it (between two lines `cursor`, the byte index of the
-    next command, is 0). *)
-Definition term_of_ed (e : ed) : term := mkTerm (draft e) 0 (cur e) (hist e) (focus e).
-
 Section Sim.
 Variable is_ws : N -> bool.
 Variable is_alnum : N -> bool.
@@ -616,3 +612,51 @@ Theorem spec_inv : forall (blank letter : N -> bool) (h : list (list N)) (ks : l
 Proof.
   intros. destruct (spec_run_inv blank letter ks (spec_start h) (spec_start_inv h)). split; assumption.
 Qed.
+
+(* ------------------------------------------------------------------ *)
+(** * Non-vacuity, and what the pinned tree did *)
+
+(** A small classification for the examples: space is blank; a-z, 0-9 and e-acute are letters. *)
+Definition ex_ws (c : N) : bool := (c =? 32)%N.
+Definition ex_alnum (c : N) : bool :=
+  ((97 <=? c) && (c <=? 122) || (48 <=? c) && (c <=? 57) || (c =? 233))%N.
+
+(** e-acute, Ctrl+Right, a, Enter (the F20 witness): the fixed editor submits "e-acute a". *)
+Example run_witness :
+  run_keys ex_ws ex_alnum true (term_start []) [KChar 233; KCtrlRight; KChar 97; KEnter]
+  = Ok (mkTerm [] 0 0 [[233; 97]%N] 1, [[[233; 97]%N]]).
+Proof. vm_compute. reflexivity. Qed.
+
+(** From a non-empty history that satisfies the hypothesis of edit_submit / edit_total:
+    Up, Enter resubmits "c;d" as the two commands "c" and "d" and does not store it twice. *)
+Example run_history :
+  Forall (fun l => forallb ex_ws l = false) [[97; 98]; [99; 59; 100]]%N /\
+  run_keys ex_ws ex_alnum true (term_start [[97; 98]; [99; 59; 100]]%N) [KUp; KEnter]
+  = Ok (mkTerm [] 0 0 [[97; 98]; [99; 59; 100]]%N 2, [[[99]; [100]]%N]).
+Proof. split; [repeat constructor | vm_compute; reflexivity]. Qed.
+
+(** The hypothesis is needed in the debug profile: a blank history entry (only possible in a
+    hand-edited history file) trips read_line's debug_assert on Up, Enter. *)
+Example blank_history_entry_panics_in_debug :
+  run_keys ex_ws ex_alnum true (term_start [[32%N]]) [KUp; KEnter] = Panic /\
+  exists r, run_keys ex_ws ex_alnum false (term_start [[32%N]]) [KUp; KEnter] = Ok r.
+Proof. split; [vm_compute; reflexivity | eexists; vm_compute; reflexivity]. Qed.
+
+(** F20 on the pinned tree: with e-acute on the line Ctrl+Right returned 2 (a byte offset) for a
+    line of 1 character, and the next insertion at that cursor is the failed assertion. *)
+Lemma F20_refuted :
+  find_word_next_pinned ex_ws ex_alnum [233%N] 0 false = 2 /\
+  length [233%N] = 1 /\
+  insert_char_index [233%N] (find_word_next_pinned ex_ws ex_alnum [233%N] 0 false) 97 = Panic /\
+  find_word_next ex_ws ex_alnum [233%N] 0 false = 1.
+Proof. vm_compute. repeat split; reflexivity. Qed.
+
+(** Second defect of the pinned tree: from a word followed only by blanks Ctrl+Right stopped
+    right behind the word ("a  ": 1) although behind a punctuation word it went to the end of
+    the line ("+  ": 3), which is what the reference editor does in both cases. *)
+Lemma F20b_refuted :
+  find_word_next_pinned ex_ws ex_alnum [97; 32; 32]%N 0 false = 1 /\
+  find_word_next_pinned ex_ws ex_alnum [43; 32; 32]%N 0 false = 3 /\
+  word_next ex_ws ex_alnum [97; 32; 32]%N 0 = 3 /\
+  find_word_next ex_ws ex_alnum [97; 32; 32]%N 0 false = 3.
+Proof. vm_compute. repeat split; reflexivity. Qed.
